@@ -48,9 +48,9 @@ Definition calls_svc (S : gmap (uuid * uuid) svc) (K : gmap N call) : Prop :=
   ∀ b cl, K !! b = Some cl → ∃ sv, S !! c_svc cl = Some sv ∧ b ∈ s_calls sv.
 Definition svc_calls (S : gmap (uuid * uuid) svc) (K : gmap N call) : Prop :=
   ∀ k sv b, S !! k = Some sv → b ∈ s_calls sv → ∃ cl, K !! b = Some cl ∧ c_svc cl = k.
-(* the private serials (bserial = None) are below the counter *)
+(* the allocator's counter and every live broker serial are u32 *)
 Definition calls_bound (K : gmap N call) (nxt : N) : Prop :=
-  ∀ b, is_Some (K !! b) → b < 4294967296 + nxt.
+  nxt < 4294967296 ∧ ∀ b, is_Some (K !! b) → b < 4294967296.
 (* a live, non-aborted call of a connected caller is in the caller's pending map, under its
    serial, with the broker-side serial *)
 Definition call_entry (Cn : gmap conn cstate) (K : gmap N call) : Prop :=
